@@ -305,6 +305,19 @@ def run(chk: core.Check) -> None:
                     got = list(fresh_row.traverse(start=s0, end=e0))
                     exp = "ok " + (" ".join(f"{c.x}:{T.pay_id((c.get_value(), c.style))}:{'N' if c.repeated is None else c.repeated}" for c in got) if got else "-")
                     reqs.append((f"row trav {'N' if s0 is None else s0} {'N' if e0 is None else e0}", exp, {**rle, "row": spec, "start": s0, "end": e0}))
+            # correspondence of Table.traverse(start, end) with the Lean model (Traverse.tableTraverse): ranges that begin and end
+            # anywhere, also strictly inside a repeated run and beyond the table
+            cs_, rs_, _pb, _g = T.state_of_xml(t.serialize())
+            reqs.append((f"tbl init {cs_} {rs_}", None, None))
+            for (s0, e0) in [(None, None), (rng.randrange(H + 1), None), (rng.randrange(H + 1), rng.randrange(H + 2)), (rng.randrange(H + 1), rng.randrange(H + 2))]:
+                got = []
+                for r_ in t.traverse(s0, e0):
+                    node_ = T.lxml_table(f'<table:table table:name="x">{r_.serialize()}</table:table>')
+                    _c, rws_, _p = T.lxml_runs(node_)
+                    got.append(f"{r_.y}={T.enc_cells(rws_[0][0])}:{'N' if r_.repeated is None else r_.repeated}")
+                chk.count("getter", "traverse(start, end) vs model")
+                reqs.append((f"tbl travrows {0 if s0 is None else s0} {'N' if e0 is None else e0}", "ok " + (";".join(got) if got else "-"),
+                             {**rle, "getter": "traverse", "start": s0, "end": e0}))
             if tno < chk.n(120, 1200):
                 heap_part(chk, t, rng, rle, W, H)
                 if t.serialize() != base:
@@ -326,7 +339,7 @@ def run(chk: core.Check) -> None:
         if exp is None:
             continue
         if exp != ans:
-            chk.disagree({**case, "line": q}, f"Row.traverse impl {exp!r} != model {ans!r}")
+            chk.disagree({**case, "line": q}, f"{'Table.traverse' if q.startswith('tbl ') else 'Row.traverse'} impl {exp!r} != model {ans!r}")
 
 
 def T_d2a(n: int) -> str:
